@@ -17,9 +17,25 @@ use crate::sim::*;
 use crate::wrap::{Wrap, WrapShared};
 
 /// index -> signal
-pub const UNIVERSE: [(i32, Signal); 4] = [(libc::SIGUSR1, Signal::SIGUSR1), (libc::SIGUSR2, Signal::SIGUSR2), (libc::SIGWINCH, Signal::SIGWINCH), (libc::SIGURG, Signal::SIGURG)];
+pub const N_SIG: usize = 10;
+/// signals nothing else in this process uses (not ALRM/PROF: the watchdogs; not TERM/INT: the
+/// harness must stay killable; not CHLD/PIPE: the driver's own children and pipes)
+pub const UNIVERSE: [(i32, Signal); N_SIG] = [
+    (libc::SIGUSR1, Signal::SIGUSR1),
+    (libc::SIGUSR2, Signal::SIGUSR2),
+    (libc::SIGWINCH, Signal::SIGWINCH),
+    (libc::SIGURG, Signal::SIGURG),
+    (libc::SIGIO, Signal::SIGIO),
+    (libc::SIGVTALRM, Signal::SIGVTALRM),
+    (libc::SIGHUP, Signal::SIGHUP),
+    (libc::SIGQUIT, Signal::SIGQUIT),
+    (libc::SIGXFSZ, Signal::SIGXFSZ),
+    (libc::SIGXCPU, Signal::SIGXCPU),
+];
 
-static HITS: [AtomicU32; 4] = [AtomicU32::new(0), AtomicU32::new(0), AtomicU32::new(0), AtomicU32::new(0)];
+#[allow(clippy::declare_interior_mutable_const)]
+const Z: AtomicU32 = AtomicU32::new(0);
+static HITS: [AtomicU32; N_SIG] = [Z; N_SIG];
 
 extern "C" fn handler(sig: i32) {
     for (i, (n, _)) in UNIVERSE.iter().enumerate() {
@@ -37,8 +53,8 @@ pub fn install_handlers() {
     }
 }
 
-fn hits() -> [u32; 4] {
-    [HITS[0].load(Ordering::SeqCst), HITS[1].load(Ordering::SeqCst), HITS[2].load(Ordering::SeqCst), HITS[3].load(Ordering::SeqCst)]
+fn hits() -> [u32; N_SIG] {
+    std::array::from_fn(|i| HITS[i].load(Ordering::SeqCst))
 }
 
 pub struct SigK {
@@ -46,8 +62,8 @@ pub struct SigK {
     /// indices into UNIVERSE
     pub configured: BTreeSet<u8>,
     /// a raised instance is waiting (standard signals coalesce)
-    pub pending: [bool; 4],
-    pub pending_at_wait: [bool; 4],
+    pub pending: [bool; N_SIG],
+    pub pending_at_wait: [bool; N_SIG],
     /// the source object still exists (its Drop unblocks the mask)
     pub alive: bool,
 }
@@ -55,19 +71,19 @@ pub struct SigK {
 #[derive(Default)]
 pub struct SigGlobal {
     /// handler hits at the start of the run
-    pub base: [u32; 4],
+    pub base: [u32; N_SIG],
     /// hits the model expects since then
-    pub expected: [u32; 4],
+    pub expected: [u32; N_SIG],
     pub used: bool,
 }
 
 fn to_signals(s: &[u8]) -> Vec<Signal> {
-    s.iter().filter(|i| (**i as usize) < 4).map(|i| UNIVERSE[*i as usize].1).collect()
+    s.iter().filter(|i| (**i as usize) < N_SIG).map(|i| UNIVERSE[*i as usize].1).collect()
 }
 
 fn blocked_in_universe() -> BTreeSet<u8> {
     let b = crate::os::blocked_signals();
-    (0..4u8).filter(|i| b.contains(&UNIVERSE[*i as usize].0)).collect()
+    (0..N_SIG as u8).filter(|i| b.contains(&UNIVERSE[*i as usize].0)).collect()
 }
 
 fn live_source(st: &St) -> Option<Id> {
@@ -88,7 +104,7 @@ pub fn begin_run(sim: &Sim) {
     }
     let mut st = sim.st.borrow_mut();
     st.sig.base = hits();
-    st.sig.expected = [0; 4];
+    st.sig.expected = [0; N_SIG];
 }
 
 /// after every operation: thread mask and handler counters against the model
@@ -122,7 +138,7 @@ pub fn check(sim: &Sim, when: &'static str) {
         );
         return;
     }
-    for i in 0..4 {
+    for i in 0..N_SIG {
         let got = h[i].wrapping_sub(base[i]);
         if got != exp[i] {
             sim.violate(
@@ -154,8 +170,8 @@ pub fn sig_new(sim: &Sim, id: Id, sigs: &[u8], script: &Script) {
         let _g = &guard;
         on_signal(id, ev, tag);
     });
-    let configured: BTreeSet<u8> = sigs.iter().copied().filter(|i| *i < 4).collect();
-    let mut src = new_src(id, script, K::Sig(SigK { disp: Some(disp.clone()), configured, pending: [false; 4], pending_at_wait: [false; 4], alive: true }), sh, cbd);
+    let configured: BTreeSet<u8> = sigs.iter().copied().filter(|i| (*i as usize) < N_SIG).collect();
+    let mut src = new_src(id, script, K::Sig(SigK { disp: Some(disp.clone()), configured, pending: [false; N_SIG], pending_at_wait: [false; N_SIG], alive: true }), sh, cbd);
     src.kept = true;
     let r = guarded(sim, "register_dispatcher", || h.register_dispatcher(disp).map_err(|e| e.to_string()));
     if let Some(r) = r {
@@ -200,14 +216,14 @@ pub fn sig_change(sim: &Sim, id: Id, how: u8, sigs: &[u8]) {
         let mut st = sim.st.borrow_mut();
         let mut deliver = Vec::new();
         if let Some(K::Sig(k)) = st.srcs.get_mut(&id).map(|s| &mut s.k) {
-            let new: BTreeSet<u8> = sigs.iter().copied().filter(|i| *i < 4).collect();
+            let new: BTreeSet<u8> = sigs.iter().copied().filter(|i| (*i as usize) < N_SIG).collect();
             let after: BTreeSet<u8> = match how {
                 0 => k.configured.union(&new).copied().collect(),
                 1 => k.configured.difference(&new).copied().collect(),
                 _ => new,
             };
             // a pending signal that is no longer configured is unblocked: normal disposition
-            for i in 0..4u8 {
+            for i in 0..N_SIG as u8 {
                 if k.pending[i as usize] && !after.contains(&i) {
                     k.pending[i as usize] = false;
                     deliver.push(i);
@@ -227,7 +243,7 @@ pub fn sig_change(sim: &Sim, id: Id, how: u8, sigs: &[u8]) {
 }
 
 pub fn raise(sim: &Sim, sig: u8) {
-    if sig >= 4 || !sim.st.borrow().sig.used {
+    if sig as usize >= N_SIG || !sim.st.borrow().sig.used {
         return;
     }
     {
@@ -300,7 +316,7 @@ pub fn after_dispatch(sim: &Sim, ok: bool) {
         if !(s.inserted && s.enabled) || s.indeterminate || s.excused || !st.must.contains_key(id) {
             continue;
         }
-        for i in 0..4 {
+        for i in 0..N_SIG {
             if k.pending_at_wait[i] && k.pending[i] && k.configured.contains(&(i as u8)) {
                 let d = format!("{:?} was pending for signals source {} when the dispatch polled, the source was processed, but the signal was not handed to the callback", UNIVERSE[i].1, id);
                 drop(st);
@@ -317,7 +333,7 @@ pub fn source_dropped(st: &mut St, id: Id) {
     if let Some(K::Sig(k)) = st.srcs.get_mut(&id).map(|s| &mut s.k) {
         if k.alive {
             k.alive = false;
-            for i in 0..4 {
+            for i in 0..N_SIG {
                 if k.pending[i] {
                     k.pending[i] = false;
                     deliver.push(i);
